@@ -265,6 +265,23 @@ def c20(pid, tier, t0):
     }, ["which switches are refused is predicted from the editor's own dirty flag (its correctness is C02's subject)", "ex mode; the vi shortcuts (^^ zj zk zD) call the same ex commands"])
 
 
+@check("C07")
+def c07(pid, tier, t0):
+    exe = nv.build_harness("c07_motions", "plain", ["c07_motions.c"], wraps=WRAPS)
+    res = nv.run_shards(exe, ["tier=" + tier, "deadline=%d" % dl(tier)], nv.NCPU, dl(tier) + 120)
+    return nv.finish(pid, tier, t0, res, {
+        "rule": "motions h l j k 0 ^ $ | w b e W B E f F t T ; , G + - _ % { } H M L space, bare and with counts {2,3,9} (f/t with a character present once, twice, absent, multi-byte), "
+                "from every start position of 8 buffers (ASCII words/punctuation/blank-led and empty lines, tabs + 2-byte + wide, combining + brackets, empty buffer, single character, nested brackets "
+                "across lines, punctuation runs, 12 lines in a 5-row window); all sequences up to depth over a 16-motion core alphabet and all pairs over the full alphabet "
+                "(state matching on cursor + sticky column + last find + window top); distinct_nontrivial = distinct (cursor, hidden state) states",
+        "depth_bound": res.stats.get("depth"),
+        "explanation": "real vi mode; cursor (xrow, xoff) read directly at idle points and compared with ref_vi (word motions by word-start/word-end predicates on the flattened text, j/k through the sticky "
+                       "display column, % by bracket depth, { } by empty-line runs, H M L from the real window top); invariants in every state: text unchanged, cursor on an existing character, never on "
+                       "the terminator of a non-empty line",
+    }, ["counts on $ 0 ^ M and NG beyond the last line are not in the alphabet (neatvi ignores / clamps them, POSIX differs: not adjudicated)",
+        "blank-only lines and right-to-left lines are not in the buffers (C17 covers right-to-left layout)", "an empty line is a word for w b e (POSIX wording)"])
+
+
 def replay(path):
     print("replay artefact:")
     print(open(path).read())
